@@ -71,9 +71,15 @@ enum Sm {
     Inherit,
     Null,
     Pipe,
+    /// RawFd of a fresh file the harness opened at a high descriptor
     Raw,
+    /// RawFd(0) / RawFd(1) / RawFd(2): the caller's own standard descriptor (the `2>&1` idiom)
+    Std0,
+    Std1,
+    Std2,
 }
 const SMS: [Sm; 5] = [Sm::Unset, Sm::Inherit, Sm::Null, Sm::Pipe, Sm::Raw];
+const SMS_ALL: [Sm; 8] = [Sm::Unset, Sm::Inherit, Sm::Null, Sm::Pipe, Sm::Raw, Sm::Std0, Sm::Std1, Sm::Std2];
 impl Sm {
     fn name(self) -> &'static str {
         match self {
@@ -82,10 +88,21 @@ impl Sm {
             Sm::Null => "Null",
             Sm::Pipe => "MakePipe",
             Sm::Raw => "RawFd",
+            Sm::Std0 => "RawFd(0)",
+            Sm::Std1 => "RawFd(1)",
+            Sm::Std2 => "RawFd(2)",
         }
     }
     fn from_name(s: &str) -> Sm {
-        SMS.iter().copied().find(|m| m.name() == s).expect("stdio mode")
+        SMS_ALL.iter().copied().find(|m| m.name() == s).expect("stdio mode")
+    }
+    fn std_k(self) -> Option<usize> {
+        match self {
+            Sm::Std0 => Some(0),
+            Sm::Std1 => Some(1),
+            Sm::Std2 => Some(2),
+            _ => None,
+        }
     }
 }
 
@@ -102,6 +119,9 @@ struct Config {
     /// "unset" | "dir" | "missing"
     cwd: String,
     stdio: [Sm; 3],
+    /// standard descriptors the caller has CLOSED before it calls spawn (start state of its descriptor
+    /// table: pipe2/open inside spawn then hand out exactly these numbers)
+    closed: [bool; 3],
     /// "unset" | "current" | "nobody"
     uid: String,
     gid: String,
@@ -120,6 +140,7 @@ impl Config {
             inherit: None,
             cwd: "unset".into(),
             stdio: [Sm::Unset; 3],
+            closed: [false; 3],
             uid: "unset".into(),
             gid: "unset".into(),
             pgroup: "unset".into(),
@@ -142,6 +163,7 @@ impl Config {
             "inherit": match &self.inherit { None => Value::Null, Some(v) => json!(v.iter().map(|a| show_bytes(a)).collect::<Vec<_>>()) },
             "cwd": self.cwd,
             "stdio": self.stdio.iter().map(|m| m.name()).collect::<Vec<_>>(),
+            "closed": (0..3).filter(|&k| self.closed[k]).collect::<Vec<_>>(),
             "uid": self.uid, "gid": self.gid, "pgroup": self.pgroup, "closure": self.closure,
         })
     }
@@ -156,6 +178,10 @@ impl Config {
             inherit: if v["inherit"].is_null() { None } else { Some(strs(&v["inherit"])) },
             cwd: s("cwd", "unset"),
             stdio: [st.first().copied().unwrap_or(Sm::Unset), st.get(1).copied().unwrap_or(Sm::Unset), st.get(2).copied().unwrap_or(Sm::Unset)],
+            closed: {
+                let c: Vec<u64> = v["closed"].as_array().map(|a| a.iter().filter_map(|x| x.as_u64()).collect()).unwrap_or_default();
+                [c.contains(&0), c.contains(&1), c.contains(&2)]
+            },
             uid: s("uid", "unset"),
             gid: s("gid", "unset"),
             pgroup: s("pgroup", "unset"),
@@ -176,6 +202,10 @@ impl Config {
             "notexec" | "dir" => Some(("child-execve".into(), libc::EACCES)),
             _ => None,
         }
+    }
+    /// descriptor numbers 0/1/2 play two roles (closed in the caller, or given as RawFd values)
+    fn aliasing(&self) -> bool {
+        self.closed.iter().any(|&c| c) || self.stdio.iter().any(|m| m.std_k().is_some())
     }
     /// uid and gid both changed to an unprivileged id: the statement allows either a child
     /// with both ids or an error (setgid after setuid is refused by Linux)
@@ -229,12 +259,23 @@ fn step_name(child: bool, nr: i64, args: &[u64; 6]) -> String {
         let s = STREAMS.get(args[1] as usize).copied().unwrap_or("other");
         return format!("{side}-{}-{s}", sysx::name(nr));
     }
+    if nr == libc::SYS_fcntl {
+        let what = match args[1] as i32 {
+            libc::F_DUPFD_CLOEXEC => "dupfd",
+            libc::F_SETFD => "setfd",
+            _ => "other",
+        };
+        return format!("{side}-fcntl-{what}");
+    }
     format!("{side}-{}", sysx::name(nr))
 }
 
 /// Appendix C menus: only answers Linux can give for the call, with Linux's side effect.
-fn menu(nr: i64, thorough: bool) -> Vec<(i32, bool)> {
+fn menu(nr: i64, args: &[u64; 6], thorough: bool) -> Vec<(i32, bool)> {
     let m: Vec<(i32, bool)> = match nr {
+        // moving a descriptor above 2: out of descriptors; changing FD_CLOEXEC: EBADF is all Linux has
+        x if x == libc::SYS_fcntl && args[1] as i32 == libc::F_DUPFD_CLOEXEC => vec![(libc::EMFILE, false), (libc::EINVAL, false)],
+        x if x == libc::SYS_fcntl && args[1] as i32 == libc::F_SETFD => vec![(libc::EBADF, false)],
         x if x == libc::SYS_pipe2 => vec![(libc::EMFILE, false), (libc::ENFILE, false), (libc::ENOMEM, false)],
         x if x == libc::SYS_openat || x == libc::SYS_open => vec![(libc::EMFILE, false), (libc::ENOENT, false), (libc::EACCES, false), (libc::ENOMEM, false)],
         x if x == libc::SYS_fork || x == libc::SYS_clone || x == libc::SYS_vfork => vec![(libc::EAGAIN, false), (libc::ENOMEM, false)],
@@ -613,6 +654,12 @@ fn exec_case(ctx: &Ctx, sdir: &str, shm: *mut Shm, shard_pgid: i32, cfg: &Config
                 raw_ident[i] = helper::fd_ident(RAW_FD_BASE + i as i32);
             }
         }
+        // start state of the caller's descriptor table
+        for k in 0..3 {
+            if cfg.closed[k] {
+                libc::close(k as i32);
+            }
+        }
         let parent_ident: Vec<Value> = (0..3).map(helper::fd_ident).collect();
         let mut cwdbuf = [0u8; 4096];
         libc::getcwd(cwdbuf.as_mut_ptr() as *mut libc::c_char, cwdbuf.len());
@@ -692,6 +739,7 @@ fn exec_case(ctx: &Ctx, sdir: &str, shm: *mut Shm, shard_pgid: i32, cfg: &Config
                 Sm::Null => Stdio::Null,
                 Sm::Pipe => Stdio::MakePipe,
                 Sm::Raw => Stdio::RawFd(rusl::platform::Fd::try_new(RAW_FD_BASE + i as i32).unwrap()),
+                Sm::Std0 | Sm::Std1 | Sm::Std2 => Stdio::RawFd(rusl::platform::Fd::try_new(cfg.stdio[i].std_k().unwrap() as i32).unwrap()),
             };
             match i {
                 0 => cmd.stdin(s),
@@ -987,7 +1035,13 @@ fn judge_ok(ctx: &Ctx, cfg: &Config, obs: &Value, r: &mut Report, rp: &Value) {
     let files = &obs["files"];
     let filedata = |k: &str| unhex(files[k].as_str().unwrap_or(""));
     let child_stdin = unhex(h["stdin"].as_str().unwrap_or(""));
+    if cfg.aliasing() {
+        judge_streams_aliasing(cfg, obs, r, rp);
+    }
     for i in 0..3 {
+        if cfg.aliasing() {
+            break;
+        }
         let m = cfg.stdio[i];
         let key = format!("C13:spawn:stdio-differs:{}:{}", STREAMS[i], m.name());
         let got = &h["fds"][i];
@@ -1042,6 +1096,7 @@ fn judge_ok(ctx: &Ctx, cfg: &Config, obs: &Value, r: &mut Report, rp: &Value) {
                     }
                 }
             }
+            Sm::Std0 | Sm::Std1 | Sm::Std2 => unreachable!("aliasing configurations are judged separately"),
             Sm::Raw => {
                 if !ident_eq(got, &obs["raw_ident"][i]) {
                     bad.push(format!("descriptor {i} is {got}, the given file is {}", obs["raw_ident"][i]));
@@ -1116,6 +1171,125 @@ fn judge_ok(ctx: &Ctx, cfg: &Config, obs: &Value, r: &mut Report, rp: &Value) {
     }
 }
 
+/// (stream descriptor pairs of the child's dup3 calls, in order)
+fn child_dups(obs: &Value) -> Vec<(u64, u64)> {
+    obs["trace"].as_array().map(|a| a.iter().filter(|e| e["side"] == "child" && e["call"] == "dup3").map(|e| (e["args"][0].as_u64().unwrap_or(99), e["args"][1].as_u64().unwrap_or(99))).collect()).unwrap_or_default()
+}
+
+/// Standard streams when the numbers 0/1/2 play a second role: the caller closed some of them before
+/// spawn (so spawn's own pipes / /dev/null land on them), or a stream is `RawFd(k)` for k in 0..=2.
+/// Judged: what the program found at 0/1/2 as exec left them — identity, access mode, open or closed.
+fn judge_streams_aliasing(cfg: &Config, obs: &Value, r: &mut Report, rp: &Value) {
+    let h = &obs["helper"];
+    let pi = &obs["parent_ident"]; // after the caller closed its descriptors: null = closed
+    let dups = child_dups(obs);
+    r.outcome(if cfg.closed.iter().any(|&c| c) { "ok-caller-had-closed-std-descriptors" } else { "ok-rawfd-names-std-descriptor" });
+    for i in 0..3 {
+        let m = cfg.stdio[i];
+        let got = &h["fds"][i];
+        let key = format!("C13:spawn:stdio-differs:{}:{}", STREAMS[i], m.name());
+        let acc = got["acc"].as_i64().unwrap_or(-1);
+        let acc_ok = if i == 0 { acc == libc::O_RDONLY as i64 || acc == libc::O_RDWR as i64 } else { acc == libc::O_WRONLY as i64 || acc == libc::O_RDWR as i64 };
+        let held = obs["pipe_held"][i].as_bool().unwrap_or(false);
+        let mut bad: Vec<String> = Vec::new();
+        if held != (m == Sm::Pipe) {
+            bad.push(format!("parent {} a pipe end in Child.{}", if held { "holds" } else { "does not hold" }, STREAMS[i]));
+        }
+        // what the stream must be: None = closed (inherited from a caller that had it closed)
+        let mut want: Option<Vec<Value>> = match m {
+            Sm::Unset | Sm::Inherit => if pi[i].is_null() { None } else { Some(vec![pi[i].clone()]) },
+            Sm::Null => Some(vec![obs["null_ident"].clone()]),
+            Sm::Pipe => Some(vec![obs["pipe_ident"][i].clone()]),
+            Sm::Raw => Some(vec![obs["raw_ident"][i].clone()]),
+            Sm::Std0 | Sm::Std1 | Sm::Std2 => {
+                let k = m.std_k().unwrap();
+                if pi[k].is_null() { None } else { Some(vec![pi[k].clone()]) }
+            }
+        };
+        // RawFd(k) while stream k itself is redirected and set up earlier (k < i): whether "descriptor k"
+        // means the caller's or the child's new one is not fixed by the statement: both accepted
+        if let (Some(k), Some(w)) = (m.std_k(), want.as_mut()) {
+            if k < i && !matches!(cfg.stdio[k], Sm::Unset | Sm::Inherit) && !h["fds"][k].is_null() {
+                w.push(h["fds"][k].clone());
+            }
+        }
+        match &want {
+            None => {
+                if !got.is_null() {
+                    bad.push(format!("descriptor {i} is open ({got}) although the caller's own descriptor was closed"));
+                }
+                r.outcome("stream-closed-as-in-caller");
+            }
+            Some(alts) => {
+                if got.is_null() {
+                    r.outcome("stream-closed-in-child");
+                    r.violation(
+                        &format!("C13:spawn:ok-but-stream-closed:{}:{}", STREAMS[i], m.name()),
+                        format!("spawn returned Ok but the program runs with {} CLOSED; configured {} (caller had closed {:?}; child dup3 calls {:?})", STREAMS[i], m.name(), (0..3).filter(|&k| cfg.closed[k]).collect::<Vec<_>>(), dups),
+                        rp.clone(),
+                    );
+                    continue;
+                }
+                if !alts.iter().any(|w| ident_eq(got, w)) {
+                    // the stream's source descriptor was overwritten by an earlier dup3 of the same child?
+                    let mine = dups.iter().position(|d| d.1 == i as u64);
+                    let clobbered = mine.map(|p| dups[..p].iter().any(|d| d.1 == dups[p].0)).unwrap_or(false);
+                    let desc = format!("descriptor {i} is {got}, configured {} = {} (child dup3 calls {:?})", m.name(), alts[0], dups);
+                    if clobbered {
+                        r.outcome("stream-source-clobbered");
+                        r.violation(&format!("C13:spawn:stdio-differs:source-clobbered:{}", STREAMS[i]), format!("{desc}: the stream's source descriptor had been overwritten by an earlier dup2 in the child"), rp.clone());
+                        continue;
+                    }
+                    bad.push(desc);
+                }
+                if matches!(m, Sm::Null) && !(got["type"].as_u64() == Some(libc::S_IFCHR as u64) && got["rdev"] == obs["null_ident"]["rdev"]) {
+                    bad.push(format!("descriptor {i} is {got}, not /dev/null"));
+                }
+                if matches!(m, Sm::Null | Sm::Pipe) && !acc_ok {
+                    bad.push(format!("access mode {acc}"));
+                }
+                if m == Sm::Pipe {
+                    if i == 0 {
+                        let d = unhex(h["stdin"].as_str().unwrap_or(""));
+                        if d != PIPE_STDIN {
+                            bad.push(format!("child read \"{}\" from the stdin pipe", show_bytes(&d)));
+                        }
+                    } else {
+                        let token: &[u8] = if i == 1 { OUT_TOKEN } else { ERR_TOKEN };
+                        let d = unhex(obs["pipe_data"][i]["data"].as_str().unwrap_or(""));
+                        if !d.windows(token.len()).any(|w| w == token) {
+                            bad.push(format!("parent read \"{}\" from the pipe", show_bytes(&d)));
+                        }
+                    }
+                }
+            }
+        }
+        if !bad.is_empty() {
+            r.violation(&key, bad.join("; "), rp.clone());
+        }
+    }
+}
+
+/// A step that fails without injection: the configuration's known one, or — where descriptor numbers
+/// alias — the child-side call the fault-free trace shows failing (dup3(k, k) = EINVAL, ...).
+fn natural_of(cfg: &Config, obs: &Value, faults: &[Fault]) -> Option<(String, i32)> {
+    if !cfg.aliasing() || !faults.is_empty() {
+        return cfg.natural_failure();
+    }
+    // (only a call the trace really shows failing counts: no errno is "natural" by configuration here,
+    // except the one the configuration itself produces, which the trace shows too)
+    for e in obs["trace"].as_array()? {
+        let ret = e["ret"].as_i64().unwrap_or(0);
+        if e["side"] == "child" && ret < 0 && e["call"] != "close" {
+            let a = &e["args"];
+            let args = [a[0].as_u64().unwrap_or(0), a[1].as_u64().unwrap_or(0), a[2].as_u64().unwrap_or(0), 0, 0, 0];
+            return Some((step_name(true, e["nr"].as_i64().unwrap_or(-1), &args), (-ret) as i32));
+        }
+    }
+    // the failing call may be missing from the trace only when the child did not get that far
+    cfg.natural_failure()
+}
+
 /// Judge one run.  Returns the observation's trace (for deriving faults) when there is one.
 fn judge(ctx: &Ctx, cfg: &Config, faults: &[Fault], res: &Result<Value, String>, r: &mut Report) {
     let rp = replay_of(cfg, faults);
@@ -1176,7 +1350,14 @@ fn judge(ctx: &Ctx, cfg: &Config, faults: &[Fault], res: &Result<Value, String>,
     // expectation
     // an Err may carry the errno of any step that failed (injected or natural); spawn MUST fail when a
     // step failed that cannot be absorbed
-    let natural = cfg.natural_failure();
+    let natural = natural_of(cfg, obs, faults);
+    let step = match (&natural, cfg.natural_failure().is_none() && faults.is_empty()) {
+        (Some((s, _)), true) => {
+            r.outcome("natural-failure-seen-in-trace-only");
+            s.clone()
+        }
+        _ => step,
+    };
     let tolerated = !faults.is_empty() && faults.iter().all(|f| f.tolerable()) && natural.is_none();
     let mut expected_errnos: Vec<i32> = faults.iter().map(|f| f.errno).collect();
     if let Some((_, e)) = &natural {
@@ -1264,7 +1445,7 @@ fn faults_of_trace(obs: &Value, thorough: bool) -> Vec<Fault> {
         let nr = e["nr"].as_i64().unwrap_or(-1);
         let a = &e["args"];
         let args = [a[0].as_u64().unwrap_or(0), a[1].as_u64().unwrap_or(0), a[2].as_u64().unwrap_or(0), 0, 0, 0];
-        for (errno, after_real) in menu(nr, thorough) {
+        for (errno, after_real) in menu(nr, &args, thorough) {
             v.push(Fault { child, idx: e["idx"].as_u64().unwrap_or(0) as usize, nr, errno, after_real, step: step_name(child, nr, &args), site: None });
         }
     }
@@ -1290,7 +1471,7 @@ fn site_faults_of_trace(obs: &Value, only: &[i64]) -> Vec<Fault> {
         if !seen.insert((child, nr, a0, a1)) {
             continue;
         }
-        let single_in_menu = menu(nr, false).iter().any(|m| m.0 == libc::EINTR);
+        let single_in_menu = menu(nr, &args, false).iter().any(|m| m.0 == libc::EINTR);
         for r in REPEATS {
             if r == 1 && single_in_menu {
                 continue;
@@ -1366,8 +1547,16 @@ fn check_config(sh: &Shard, job: &Job, r: &mut Report) {
         clear_case();
         return;
     }
+    if obs["spawn"] != "ok" {
+        // the command fails by itself for a reason only its trace shows: deviations on top of that say nothing
+        clear_case();
+        return;
+    }
     let mut faults = faults_of_trace(&obs, job.full_menu);
     faults.extend(site_faults_of_trace(&obs, &[]));
+    if job.child_only {
+        faults.retain(|f| f.child);
+    }
     let mut firsts: Vec<(Fault, Value)> = Vec::new();
     for f in &faults {
         let fs = [f.clone()];
@@ -1559,6 +1748,37 @@ fn ladders(thorough: bool) -> Vec<Config> {
     v
 }
 
+/// (1) the caller has closed a non-empty subset of {0,1,2} x every stream in {Inherit, Null, MakePipe, RawFd};
+/// (2) one stream is RawFd(k), k in 0..=2, the other two in {Inherit, MakePipe, Null}.  Fault-free.
+fn descriptor_aliasing() -> Vec<Config> {
+    let mut v = Vec::new();
+    let grid = [Sm::Inherit, Sm::Null, Sm::Pipe, Sm::Raw];
+    for mask in 1..8u8 {
+        for a in grid {
+            for bb in grid {
+                for c in grid {
+                    v.push(Config { stdio: [a, bb, c], closed: [mask & 1 != 0, mask & 2 != 0, mask & 4 != 0], ..Config::base() });
+                }
+            }
+        }
+    }
+    let others = [Sm::Inherit, Sm::Pipe, Sm::Null];
+    for i in 0..3 {
+        for k in [Sm::Std0, Sm::Std1, Sm::Std2] {
+            for x in others {
+                for y in others {
+                    let mut st = [Sm::Inherit; 3];
+                    st[i] = k;
+                    st[(i + 1) % 3] = x;
+                    st[(i + 2) % 3] = y;
+                    v.push(Config { stdio: st, ..Config::base() });
+                }
+            }
+        }
+    }
+    v
+}
+
 fn stdio_triples() -> Vec<Config> {
     let mut v = Vec::new();
     for a in SMS {
@@ -1595,6 +1815,7 @@ fn product(thorough: bool) -> Vec<Config> {
                                 inherit: if WITH_START { Some(vec![b(b"INH=1"), b(b"HOME=/nowhere")]) } else { None },
                                 cwd: cwd.into(),
                                 stdio: t.stdio,
+                                closed: [false; 3],
                                 uid: if ids { "current" } else { "unset" }.into(),
                                 gid: if ids { "current" } else { "unset" }.into(),
                                 pgroup: if ids { "zero" } else { "unset" }.into(),
@@ -1616,14 +1837,16 @@ struct Job {
     /// every errno of each call's menu (else the first one or two)
     full_menu: bool,
     pairs: bool,
+    /// deviations only on the calls of the forked child (between fork and exec)
+    child_only: bool,
 }
 
 fn jobs(ctx: &Ctx) -> Vec<Job> {
     let mut seen: HashSet<String> = HashSet::new();
     let mut out = Vec::new();
-    let mut add = |cfg: Config, faults: bool, full_menu: bool, pairs: bool, out: &mut Vec<Job>| {
+    let mut add = |cfg: Config, faults: bool, full_menu: bool, child_only: bool, out: &mut Vec<Job>| {
         if seen.insert(cfg.to_json().to_string()) {
-            out.push(Job { cfg, faults, full_menu, pairs });
+            out.push(Job { cfg, faults, full_menu, pairs: false, child_only });
         }
     };
     let t = ctx.thorough;
@@ -1637,13 +1860,22 @@ fn jobs(ctx: &Ctx) -> Vec<Job> {
     for c in ladders(t) {
         add(c, false, false, false, &mut out);
     }
+    // descriptor numbers in two roles: fault-free and with every child-side call failing (thorough: every
+    // call of both sides, full menus); then the same commands with a program that does not exist (a failing
+    // exec must reach the caller although the report pipe itself may sit on 0..=2)
+    for c in descriptor_aliasing() {
+        add(c, true, t, !t, &mut out);
+    }
+    for c in descriptor_aliasing() {
+        add(Config { bin: "missing".into(), ..c }, t, false, false, &mut out);
+    }
     for c in product(t) {
         add(c, t, false, false, &mut out);
     }
     if t {
         // pairs last, so that the single-deviation cases are the replay artefacts
-        out.push(Job { cfg: Config::base(), faults: true, full_menu: true, pairs: true });
-        out.push(Job { cfg: piped, faults: true, full_menu: true, pairs: true });
+        out.push(Job { cfg: Config::base(), faults: true, full_menu: true, pairs: true, child_only: false });
+        out.push(Job { cfg: piped, faults: true, full_menu: true, pairs: true, child_only: false });
     }
     out
 }
@@ -1687,6 +1919,7 @@ fn c13(args: &Args) -> Report {
     r.bound("shards", n_shards as u64);
     r.bound("deviations", if args.thorough { "every single call of parent and child x full errno menu for the single-factor configurations and the 125 stdio triples, x 1-2 errnos for the product; pairs (second deviation after the first, full menu) for the base command and the all-pipes command" } else { "every single call of parent and child x 1-2 errnos, for every configuration" });
     r.bound("args", "0..2 arguments incl. empty string and non-UTF-8 bytes; count ladder (fault-free) n = 0..=70 (thorough 0..=300) + {127,128,129,255,256,257,1000} (thorough + 511..513, 1023..1025, 4096), argument i = \"a<i>\"; the same ladder for provided environment entries \"E<i>=v<i>\"");
+    r.bound("descriptor_aliasing", "caller closed every non-empty subset of {0,1,2} before spawn x each stream in {Inherit, Null, MakePipe, RawFd(fresh file)} (448); one stream RawFd(k), k in 0..=2, the others in {Inherit, MakePipe, Null} (81); each fault-free, with a nonexistent program (execve ENOENT), and with every child-side call (close, fcntl F_DUPFD_CLOEXEC / F_SETFD, dup3, execve) failing (thorough: every call of both sides, full menus); the program reports 0/1/2 as exec left them");
     r.bound("repeated_deviations", "every interruptible call site (read of the sync pipe, dup3, wait4 on the failure path) answers EINTR 1,2,3,5 times in a row, matched by (syscall, descriptor)");
     r.note("the harness runs under a global allocator that fills every fresh block and 16 bytes of slack behind it with 0xA5: an unterminated argv/envp vector reaches execve as a wild pointer instead of ending at an accidental zero word");
     r.bound("env", if WITH_START { "nothing given (Inherit) over an installed process environment of {none, 0, 1, 2 entries}, envs(0..2 entries) over it (thorough: entry without '=', empty value, non-UTF-8, duplicate key, empty entry)" } else { "nothing given (None), envs(0..2 entries) (thorough: entry without '=', empty value, non-UTF-8, duplicate key, empty entry)" });
